@@ -651,6 +651,15 @@ func (c *Ctx) merge(ins []edgeIn) *State {
 			gkeys[k] = true
 		}
 	}
+	for _, in := range ins {
+		if in.st.ghostEpoch != ins[0].st.ghostEpoch {
+			// counters untouched on every path but living in different epochs
+			for k := range c.ghostNames {
+				gkeys[k] = true
+			}
+			break
+		}
+	}
 	for _, k := range sortedStrKeys(gkeys) {
 		var ts []T
 		for _, in := range ins {
